@@ -58,11 +58,18 @@ def strategy(draw, tier="quick"):
             P = None
     if P is None:
         P = draw(st.one_of(st.sampled_from([0, 1, 999, 1000, 1001, 2000, 5000, 10**6, 5 * 10**6, 60 * 10**6]), st.integers(0, 4000), st.integers(0, 10**7)))
-    return {"events": evs, "P_us": P}
+    return {"events": evs, "P_us": P, "zone": draw(st.sampled_from([None, None, "Europe/London", "Europe/Lisbon", "Europe/Berlin"])), "scale": draw(st.sampled_from([1, 1, 1, 60_000]))}
+
+
+ZONE_BASE_US = 1_616_893_200_000_000 - 1800 * 10**6  # half an hour before Europe's clocks went forward on 2021-03-28
+_zone = {"tz": None}
 
 
 def _mk(Event, e):
-    return Event(timestamp=gen.dt_utc(BASE_US + e["ts_ms"] * 1000), duration=timedelta(microseconds=e["dur_us"]), data={"k": e["data"]})
+    ts = gen.dt_utc(BASE_US + e["ts_ms"] * 1000)
+    if _zone["tz"] is not None:  # the same instant, handed over in a real zone (an Event normalises it to UTC)
+        ts = ts.astimezone(_zone["tz"])
+    return Event(timestamp=ts, duration=timedelta(microseconds=e["dur_us"]), data={"k": e["data"]})
 
 
 def _t(e):
@@ -84,9 +91,23 @@ def run_case(case):
     from aw_core.models import Event
     from aw_transform import heartbeat_merge, heartbeat_reduce
 
+    global BASE_US
+    scale = case.get("scale", 1)
     evs = case["events"]
-    P = case["P_us"]
+    if scale != 1:  # stretch the layout from milliseconds to minutes, so that it spans a daylight-saving change
+        evs = [dict(e, ts_ms=e["ts_ms"] * scale, dur_us=e["dur_us"] * scale) for e in evs]
+    P = case["P_us"] * scale
     p = P / 10**6
+    _zone["tz"] = None
+    BASE_US = 1_600_000_000_000_000
+    if case.get("zone"):
+        try:
+            import zoneinfo
+
+            _zone["tz"] = zoneinfo.ZoneInfo(case["zone"])
+            BASE_US = ZONE_BASE_US
+        except Exception:
+            _zone["tz"] = None
     model = [(e["ts_ms"] * 1000, e["ts_ms"] * 1000 + e["dur_us"], e["data"]) for e in evs]
     boundary = False
     # pairwise merge
